@@ -101,9 +101,12 @@ Lemma quant_conventions_ok : forallb quant_decl_ok c_quant_decls = true.
 Proof. by vm_compute. Qed.
 
 (** *** CUDD *)
-Lemma c_apply_agrees_cudd : c_apply_agrees c_apply_cudd = true.
+Lemma c_apply_agrees_cudd :
+  forallb (fun op => bool_decide (op ∈ quantifier_ops) || c_prop_agrees c_apply_cudd op)
+          py_vocab = true.
 Proof. by vm_compute. Qed.
-Lemma c_quantifiers_agree_cudd : c_quantifiers_agree c_apply_cudd = true.
+Lemma c_quantifiers_agree_cudd :
+  forallb (c_quant_agrees c_apply_cudd) quantifier_ops = true.
 Proof. by vm_compute. Qed.
 Lemma c_within_vocab_cudd : c_within_vocab c_apply_cudd = true.
 Proof. by vm_compute. Qed.
@@ -111,9 +114,12 @@ Lemma c_arity_agrees_cudd : c_arity_agrees c_apply_cudd c_arity_cudd = true.
 Proof. by vm_compute. Qed.
 
 (** *** CUDD ZDD *)
-Lemma c_apply_agrees_cudd_zdd : c_apply_agrees c_apply_cudd_zdd = true.
+Lemma c_apply_agrees_cudd_zdd :
+  forallb (fun op => bool_decide (op ∈ quantifier_ops) || c_prop_agrees c_apply_cudd_zdd op)
+          py_vocab = true.
 Proof. by vm_compute. Qed.
-Lemma c_quantifiers_agree_cudd_zdd : c_quantifiers_agree c_apply_cudd_zdd = true.
+Lemma c_quantifiers_agree_cudd_zdd :
+  forallb (c_quant_agrees c_apply_cudd_zdd) quantifier_ops = true.
 Proof. by vm_compute. Qed.
 Lemma c_within_vocab_cudd_zdd : c_within_vocab c_apply_cudd_zdd = true.
 Proof. by vm_compute. Qed.
@@ -121,7 +127,9 @@ Lemma c_arity_agrees_cudd_zdd : c_arity_agrees c_apply_cudd_zdd c_arity_cudd_zdd
 Proof. by vm_compute. Qed.
 
 (** *** Sylvan (the quantifier symbols are in Properties/C19_sylvan_quant.v) *)
-Lemma c_apply_agrees_sylvan : c_apply_agrees c_apply_sylvan = true.
+Lemma c_apply_agrees_sylvan :
+  forallb (fun op => bool_decide (op ∈ quantifier_ops) || c_prop_agrees c_apply_sylvan op)
+          py_vocab = true.
 Proof. by vm_compute. Qed.
 Lemma c_within_vocab_sylvan : c_within_vocab c_apply_sylvan = true.
 Proof. by vm_compute. Qed.
@@ -129,9 +137,12 @@ Lemma c_arity_agrees_sylvan : c_arity_agrees c_apply_sylvan c_arity_sylvan = tru
 Proof. by vm_compute. Qed.
 
 (** *** BuDDy *)
-Lemma c_apply_agrees_buddy : c_apply_agrees c_apply_buddy = true.
+Lemma c_apply_agrees_buddy :
+  forallb (fun op => bool_decide (op ∈ quantifier_ops) || c_prop_agrees c_apply_buddy op)
+          py_vocab = true.
 Proof. by vm_compute. Qed.
-Lemma c_quantifiers_agree_buddy : c_quantifiers_agree c_apply_buddy = true.
+Lemma c_quantifiers_agree_buddy :
+  forallb (c_quant_agrees c_apply_buddy) quantifier_ops = true.
 Proof. by vm_compute. Qed.
 Lemma c_within_vocab_buddy : c_within_vocab c_apply_buddy = true.
 Proof. by vm_compute. Qed.
@@ -158,13 +169,17 @@ Proof. by vm_compute. Qed.
 Definition ref_discipline (ms : list method) : bool :=
   forallb (fun m => forallb (balanced m) (paths m)) ms.
 
-Lemma ref_discipline_cudd_ok : ref_discipline methods_cudd = true.
+Lemma ref_discipline_cudd_ok :
+  forallb (fun m => forallb (balanced m) (paths m)) methods_cudd = true.
 Proof. by vm_compute. Qed.
-Lemma ref_discipline_cudd_zdd_ok : ref_discipline methods_cudd_zdd = true.
+Lemma ref_discipline_cudd_zdd_ok :
+  forallb (fun m => forallb (balanced m) (paths m)) methods_cudd_zdd = true.
 Proof. by vm_compute. Qed.
-Lemma ref_discipline_sylvan_ok : ref_discipline methods_sylvan = true.
+Lemma ref_discipline_sylvan_ok :
+  forallb (fun m => forallb (balanced m) (paths m)) methods_sylvan = true.
 Proof. by vm_compute. Qed.
-Lemma ref_discipline_buddy_ok : ref_discipline methods_buddy = true.
+Lemma ref_discipline_buddy_ok :
+  forallb (fun m => forallb (balanced m) (paths m)) methods_buddy = true.
 Proof. by vm_compute. Qed.
 
 Lemma handles_ok :
